@@ -282,8 +282,11 @@ theorem FilesOk_removeAt (its : Items) : ∀ (pe : List Nat) (pos : Nat), FilesO
 
 /-- a change of the content of one node that keeps the header and keeps the invariant of the content keeps the invariant
 of the whole -/
+theorem effOf_files (pe : List Nat) (h h' : Hdr) (hf : h'.files = h.files) : effOf pe h' = effOf pe h := by
+  unfold effOf; rw [hf]
+
 theorem FilesOk_modify (t : Nat) (g : Hdr → Items → Hdr × Items)
-    (hg : ∀ (h : Hdr) (k : Items) (pe : List Nat), FilesOk pe k → (g h k).1 = h ∧ FilesOk pe (g h k).2)
+    (hg : ∀ (h : Hdr) (k : Items) (pe : List Nat), FilesOk pe k → (g h k).1.files = h.files ∧ FilesOk pe (g h k).2)
     (its : Items) : ∀ pe : List Nat, FilesOk pe its → FilesOk pe (its.modify t g) := by
   induction its with
   | nil => intro _ _; trivial
@@ -294,9 +297,9 @@ theorem FilesOk_modify (t : Nat) (g : Hdr → Items → Hdr × Items)
     by_cases hid : hd.id = t
     · rw [if_pos hid]
       obtain ⟨e1, e2⟩ := hg hd k (effOf pe hd) h2
-      have : g hd k = (hd, (g hd k).2) := Prod.ext e1 rfl
-      rw [this]
-      exact ⟨h1, e2, ihr pe h3⟩
+      show FilesOk pe (.elem (g hd k).1 (g hd k).2 (r.modify t g))
+      refine ⟨by rw [e1]; exact h1, ?_, ihr pe h3⟩
+      rw [effOf_files pe hd _ e1]; exact e2
     · rw [if_neg hid]
       exact ⟨h1, ihk (effOf pe hd) h2, ihr pe h3⟩
 
@@ -526,6 +529,12 @@ theorem opRmFile_ok (w : World) (k f : Nat) (hw : w.filesOk) : (opRmFile S w k f
         have : m ∈ w.models := List.mem_of_getElem? hm
         exact hw m this
 
+theorem FilesOk_setParents (p : PRef) (its : Items) : ∀ pe, FilesOk pe its → FilesOk pe (its.setParents p) := by
+  induction its with
+  | nil => intro _ _; trivial
+  | text _ r ih => intro pe h; exact ih pe h
+  | elem h k r _ ihr => intro pe ⟨h1, h2, h3⟩; exact ⟨h1, h2, ihr pe h3⟩
+
 /-- **C10** `create_file` keeps every element within the files of its parent: the children of the root that had no set of
 their own are pinned to the files the root had so far -/
 theorem opMkFile_ok (w : World) (k : Nat) (name : Bytes) (ver : Nat) (valid : Bool) (hw : w.filesOk) :
@@ -558,7 +567,11 @@ theorem opMkFile_ok (w : World) (k : Nat) (name : Bytes) (ver : Nat) (valid : Bo
               split
               · exact FilesOk_pin _ _ (fun g hg => List.mem_append_left _ hg) _ hmm
               · exact FilesOk_mono _ _ _ (fun g hg => List.mem_append_left _ hg) hmm
-          split <;> exact hstep
+          cases hiss : m.rootIssued
+          · simp only [Bool.false_eq_true, if_false]
+            exact FilesOk_setParents _ _ _ hstep
+          · simp only [if_true]
+            exact hstep
 
 end
 
@@ -587,15 +600,14 @@ theorem FilesOk_insertAt (new : Items → Items) (its : Items) : ∀ (pe : List 
 
 /-- a change inside one node that keeps its header and the invariant of its content, applied to the root forest -/
 theorem rootOk_modify (m : Model) (p : Nat) (g : Hdr → Items → Hdr × Items)
-    (hg : ∀ (h : Hdr) (k : Items) (pe : List Nat), FilesOk pe k → (g h k).1 = h ∧ FilesOk pe (g h k).2)
+    (hg : ∀ (h : Hdr) (k : Items) (pe : List Nat), FilesOk pe k → (g h k).1.files = h.files ∧ FilesOk pe (g h k).2)
     (hm : m.filesOk) : rootOk (m.rootItems.modify p g) := by
   unfold Model.rootItems Items.modify
   by_cases hid : m.rootHdr.id = p
   · rw [if_pos hid]
     obtain ⟨e1, e2⟩ := hg m.rootHdr m.rootKids m.rootHdr.files hm
-    have : g m.rootHdr m.rootKids = (m.rootHdr, (g m.rootHdr m.rootKids).2) := Prod.ext e1 rfl
-    rw [this]
-    exact e2
+    show FilesOk (g m.rootHdr m.rootKids).1.files (g m.rootHdr m.rootKids).2
+    rw [e1]; exact e2
   · rw [if_neg hid]
     exact FilesOk_modify p g hg _ _ hm
 
